@@ -15,7 +15,7 @@ open Rpft Rpft.Compile Rpft.RefFlow Rpft.Flow
 theorem rel_init (rows : List CRow) (M : Maps) (hM : ∀ j, M.rOf j = none) (noArgs testTypes : List Str)
     (h : noArgs = RefFlow.noArgsTests) : Rel rows M false 0 (initSt noArgs testTypes) {} := by
   refine ⟨by rw [gOf_zero]; rfl, by rw [gOf_zero]; rfl, fun j c hj => absurd hj (Nat.not_lt_zero j), rfl, rfl,
-    ?_, by simp [gOf_zero], ?_, ?_, h, ?_, ?_, hM⟩
+    ?_, by simp [gOf_zero], ?_, ?_, h, ?_, ?_, ?_, hM⟩
   · intro p hp; cases hp
   · intro e he; cases he
   · intro e he; cases he
@@ -25,6 +25,7 @@ theorem rel_init (rows : List CRow) (M : Maps) (hM : ∀ j, M.rOf j = none) (noA
   · intro j c j' c' hv; rcases hv.1 with h1 | h1
     · exact absurd h1 (Nat.not_lt_zero j)
     · exact absurd h1.1 (by simp)
+  · intro i n r hn; simp [initSt] at hn
 
 /-- pass 1 only ever adds out-edges -/
 theorem pass1Row_prefix (r : RRow) (st st' : P1) (k : Nat) (h : pass1Row st k r = .ok st') :
